@@ -4,6 +4,16 @@ import json, os
 ROOT = os.path.dirname(os.path.dirname(os.path.abspath(__file__)))
 
 CHECKS = {
+ "C09": dict(
+   text="Valid base models x every single injection from the catalogue of structural rule violations x every injection site (operand position, nesting depth, declaration position) x renderings; both DSL entry points must return a non-nil error and no model.",
+   note="Each injected text is invalid by construction against the pinned grammar and listener rules; bases are accepted (C03).",
+   technique="bounded exhaustive fault injection: models x catalogue x sites x layouts",
+   design="3/C09"),
+ "C14": dict(
+   text="Plain and modular models x both option values x permutations of the type-definition list x all schedules of the printer's three map-iteration sites (controlled iteration injected by source rewriting; each site fully permuted, plus all pairs of deviations) x JSON key orders: one byte string per (model, option), declarations in the documented order (independent sort), stripped source-information output equals plain output and parses to the same model.",
+   note="Map order is owned through build-time rewriting of every range-over-map in pkg/go/transformer; protojson is atomic; items with file but no module are not generated.",
+   technique="exhaustive exploration of map-iteration schedules (stateless DFS over injected choice points) x input permutations",
+   design="3/C14"),
  "C01": dict(
    text="Every rendering (canonical, every single layout deviation, every uniform style) of every generated full model is pushed through parse/print/parse/print/parse/print, in memory on the parser's own pointer and through the JSON-string API; printing must succeed, the re-parsed model must equal the first (expressions modulo surrounding whitespace), and from the second text on nothing may move (byte stability).",
    note="Domain = texts written by the reference renderer from the model families (all DSL-conform rewrite shapes to 3/4 leaves, identifier classes incl. keywords, restriction lists, all 24 parameter types, expression alphabet); other accepted byte strings are not enumerated.",
